@@ -272,7 +272,10 @@ def run(tier: str, seed: int) -> Dict[str, Any]:
         mine = [(k, t) for (k, t) in pairs if k in ks] or [("-", "DEFAULT")]
         generated = src["type"] in ("probe", "random")
         for (k, t) in mine:
-            for v in range(par["variants"] if generated else 1):
+            vs = list(range(par["variants"] if generated else 1))
+            if k != "-" and codecdrv.has_struct_array(cls):
+                vs.append(codecdrv.SPARSE)        # sparse struct arrays (the usual state of DATA_COLLECTION.data_sets)
+            for v in vs:
                 if full:
                     name = "full"
                 elif size <= par["mid_size"]:
